@@ -132,6 +132,43 @@ fn run_inner(sc: &J) -> Result<Option<String>, String> {
             if n != out.len() || out != bytes { return Ok(Some(format!("write_value_ref returned {n}, wrote {} bytes {:02x?}", out.len(), out))); }
             Ok(None)
         }
+        // C13/C03: container writer history. ops: ["a:<hex datum>" append_value_ref | "u:<hex>" unvalidated append of a
+        // value decoded under `vschema` (may not fit the writer schema) | "f" flush]. Sink accepts `accept` bytes per
+        // call, fails at call `fail_at`. If every op returns Ok the sink must hold exactly what a Vec holds; reading
+        // the file must return exactly the values whose append returned Ok.
+        "container_history" => {
+            let schema = Schema::parse_str(sc["schema"].as_str().ok_or("schema")?).map_err(|e| e.to_string())?;
+            let vschema = match sc.get("vschema").and_then(|x| x.as_str()) { Some(t) => Schema::parse_str(t).map_err(|e| e.to_string())?, None => schema.clone() };
+            let accept = sc["accept"].as_u64().map(|x| x as usize).unwrap_or(usize::MAX);
+            let fail_at = sc["fail_at"].as_u64().map(|x| x as usize);
+            let block_size = sc["block_size"].as_u64().map(|x| x as usize).unwrap_or(16000);
+            let ops: Vec<String> = sc["ops"].as_array().ok_or("ops")?.iter().map(|x| x.as_str().unwrap_or("").to_string()).collect();
+            let run = |sink: &mut dyn std::io::Write| -> (bool, Vec<Value>) {
+                let mut w = apache_avro::Writer::builder().schema(&schema).writer(sink).marker([7u8; 16]).block_size(block_size).build().unwrap();
+                let mut all_ok = true; let mut appended = Vec::new();
+                for op in &ops {
+                    if op == "f" { if w.flush().is_err() { all_ok = false; } continue; }
+                    let (k, h) = op.split_at(2);
+                    let bytes = crate::hex(h);
+                    let v = if k == "a:" { apache_avro::from_avro_datum(&schema, &mut &bytes[..], None).unwrap() } else { apache_avro::from_avro_datum(&vschema, &mut &bytes[..], None).unwrap() };
+                    let r = if k == "a:" { w.append_value_ref(&v) } else { w.unvalidated_append_value_ref(&v) };
+                    match r { Ok(_) => appended.push(v), Err(_) => all_ok = false }
+                }
+                if w.flush().is_err() { all_ok = false; }
+                (all_ok, appended)
+            };
+            let mut good = Vec::new();
+            let (_, appended_good) = run(&mut good);
+            let mut sink = FaultySink { data: Vec::new(), accept, fail_at, calls: 0 };
+            let (all_ok, _) = run(&mut sink);
+            if all_ok && sink.data != good { return Ok(Some(format!("every call returned Ok but the sink holds {} bytes, an in-memory buffer holds {}", sink.data.len(), good.len()))); }
+            // read back the in-memory file: exactly the successfully appended values
+            match apache_avro::Reader::new(&good[..]) {
+                Ok(rd) => { let got: Result<Vec<Value>, _> = rd.collect();
+                    match got { Ok(vs) if vs == appended_good => Ok(None), other => Ok(Some(format!("file reads back as {other:?}, appended Ok: {appended_good:?}"))) } }
+                Err(e) => Ok(Some(format!("file cannot be opened: {e}"))),
+            }
+        }
         k => Err(format!("unknown scenario kind {k:?}")),
     }
 }
